@@ -35,7 +35,7 @@ theorem readNameLoop_terminates (buf : Bytes) (fuel pos : Nat) (labels : List La
     (hnp : np ≤ compressionPointerLimit) (hf : nameMeasure buf.length np pos < fuel) :
     readNameLoop buf fuel pos labels np seekTo ≠ .hang := (readNameLoop_safe buf fuel pos labels np seekTo hnp hf).2
 
-/-- more fuel than needed does not change the answer: the result is a function of the buffer alone -/
+/-- `readMessage`: header, then as many questions and records as the counts announce, each read safely -/
 theorem readMessage_no_panic (buf : Bytes) : (readMessage buf).Safe := readMessage_safe buf
 
 /-- `MessageFromWireFormat` on arbitrary bytes -/
